@@ -445,6 +445,25 @@ def run(ctx):
         ctx.case(dict(kind="legacy", mode=mode, n=None), nontrivial=False)
         ask(dict(op="C14.token_arr", mode=mode, n=None), ("token_arr", mode, None, t.token_arr))
 
+    # ---- 3a. the helper methods of the token containers are exercised FIRST-hand here (nothing else in the library calls them): using them
+    #          must not change what the containers hold (values()/keys()/len read the instance dict)
+    try:
+        from maze_dataset.constants import SPECIAL_TOKENS, VOCAB, VOCAB_LIST
+        before = (list(SPECIAL_TOKENS.values()), len(SPECIAL_TOKENS), list(VOCAB.values()) == list(VOCAB_LIST), len(VOCAB))
+        for cont, key in ((SPECIAL_TOKENS, "ADJLIST_START"), (SPECIAL_TOKENS, "PATH_END"), (VOCAB, "ADJLIST_START"), (VOCAB, "CTT_0")):
+            for nm in ("get_abbrev",):
+                f = getattr(cont, nm, None)
+                if f is None: continue
+                try: f(key)
+                except Exception: pass
+            list(cont.keys()); list(cont.items()); key in cont
+        after = (list(SPECIAL_TOKENS.values()), len(SPECIAL_TOKENS), list(VOCAB.values()) == list(VOCAB_LIST), len(VOCAB))
+        ctx.case(dict(kind="container-helpers"), nontrivial=True)
+        if after != before or not all(isinstance(v, str) for v in after[0]):
+            B.violate("vocab", f"after calling the token containers' helper methods (get_abbrev, keys, items) they hold something else: "
+                      f"SPECIAL_TOKENS has {after[1]} values (was {before[1]}), VOCAB has {after[3]} (was {before[3]}), values()==VOCAB_LIST is {after[2]}", dict(kind="vocab", helpers=True))
+    except ImportError:
+        pass
     # ---- 3b. the vocabulary of a size must not depend on which sizes were built before it: FRESH tokenizer objects in descending and
     #          interleaved order (the ascending pass above used cached objects), every mode, compared with the ascending result
     order = list(range(50, 0, -1)) + [7, 50, 3, 49, 12, 2, 31, 30]
@@ -458,6 +477,29 @@ def run(ctx):
                 k = next((i for i, (a, b) in enumerate(zip(got, want)) if a != b), min(len(got), len(want)))
                 B.violate("legacy", f"MazeTokenizer({mode}, max_grid_size={n}) built after larger sizes has another vocabulary than the one built first: position {k} holds "
                           f"{got[k] if k < len(got) else None!r} instead of {want[k] if k < len(want) else None!r}", dict(kind="legacy", mode=mode, n=n, order=True))
+                break
+
+    # ---- 3c. ONE long-lived tokenizer re-sized in place (max_grid_size assigned, clear_cache() called as documented), after different
+    #          parts of it were used: it must then be indistinguishable from a fresh tokenizer of the new size
+    for mode in MODES:
+        for used in ((), ("token_arr",), ("tokenizer_map",), ("token_arr", "tokenizer_map"), ("encode",), ("node_strings_map", "encode")):
+            tok = R["MT"](tokenization_mode=R["TM"][mode], max_grid_size=5)
+            try:
+                for u in used:
+                    if u == "encode": tok.encode(list(tok.token_arr[:3]))
+                    else: getattr(tok, u, None)
+                tok.max_grid_size = 6
+                tok.clear_cache()
+                fresh = R["MT"](tokenization_mode=R["TM"][mode], max_grid_size=6)
+                got = (list(tok.token_arr), dict(tok.tokenizer_map), list(tok.decode(tok.encode(list(fresh.token_arr[11:20])))))
+                want = (list(fresh.token_arr), dict(fresh.tokenizer_map), list(fresh.token_arr[11:20]))
+            except Exception as e:
+                got, want = f"{type(e).__name__}: {str(e)[:80]}", None
+            ctx.case(dict(kind="legacy-resized", mode=mode, used=list(used)), nontrivial=True); ctx.count("legacy_resized_in_place")
+            if got != want:
+                B.violate("legacy", f"MazeTokenizer({mode}) used ({', '.join(used) or 'not at all'}) at max_grid_size=5, then set to 6 and clear_cache()d, is not a fresh size-6 tokenizer: "
+                          + (got if isinstance(got, str) else f"token_arr equal {got[0] == want[0]}, tokenizer_map equal {got[1] == want[1]}, decode(encode(x)) = {got[2][:4]} for x = {want[2][:4]}"),
+                          dict(kind="legacy", mode=mode, n=6, resized=True, used=list(used)))
                 break
 
     # ---- 4. codecs
